@@ -111,6 +111,8 @@ func main() {
 		runC08()
 	case "c19":
 		runC19()
+	case "c11":
+		runC11()
 	default:
 		fmt.Fprintln(os.Stderr, "unknown property", cmd)
 		os.Exit(2)
